@@ -160,6 +160,7 @@ static void run_item(const Item& it, const std::string& enc, uint64_t X, Result&
             consume_pad(d); d.skip_item();
             uint64_t s = d.read_unsigned();
             if (s != 42) fail("skip", "item after skip_item is " + std::to_string(s) + ", expected the sentinel 42");
+            if (!PEEK(d, (bool)(o.m_p <= o.m_end), true)) fail("skip", "the read cursor is beyond the end of the buffered data");
         } catch (std::exception& e) { fail("skip", std::string("exception: ") + e.what()); }
     }
     // (3) containers: read through read_array with a skipping callback (exercises break detection)
